@@ -559,3 +559,39 @@ Proof.
     try (split; [discriminate|lia]); [|destruct FC].
   destruct FC as (_ & _ & _ & Rl4). split; [discriminate|lia].
 Qed.
+
+(* F04 as found (cx_complist = false): a data-only composite list at the end of its segment;
+   the raw copy reads allocSize = content + 8 bytes from AFTER the tag word and panics *)
+Definition complist_msg : segs :=
+  [[0;0;0;0;0;0;1;0;  1;0;0;0;15;0;0;0;  4;0;0;0;1;0;0;0;  7;0;0;0;0;0;0;0]].
+Example canon_complist_refuted :
+  let c := mkCfg 0 0 true true in
+  msg_ok complist_msg /\
+  run_canon 10 c (mkCFix false true true (mkFix true true true)) complist_msg SelRoot = KPanic /\
+  exists bs, run_canon 10 c (mkCFix true true true (mkFix true true true)) complist_msg SelRoot = KOk bs.
+Proof.
+  split; [repeat constructor; cbn; try lia; unfold maxSegmentSize; lia|].
+  split; [vm_compute; reflexivity|]. eexists. vm_compute. reflexivity.
+Qed.
+
+(* ------------------------------------------------------------------ not proved (kept visible) *)
+(* canon_fuel_partial.  Full statement: for s with 0 <= p_depth s <= D - 1 and
+   2 * D + 1 <= fuel, fst (canonicalize c fx fuel src rl s) <> KFuel
+   (fill_canonical from depth d needs 2d + 3 (2 when d = 0), canonical_ptr 2d + 4,
+   canonical_list 2d + 3: fill -> ptr -> fill/list costs two units per pointer level, like
+   writePtr/copyStruct in Core/CopySafe.v, so the bound is 2D + 1 and NOT D + 1).
+   Missing: the three-way induction on fuel over fill_canonical / canonical_ptr /
+   canonical_list with the depth lemmas struct_ptr_depth / ptrlist_at_depth /
+   list_struct_depth (same shape as copy_fuel_stable; KFuel is a distinct outcome here so no
+   stability argument is needed).
+
+   canon_alloc_partial / copy_alloc_partial.  Full statement: the bytes appended to the
+   destination (sum over segments of zlen (mem dst' i) - zlen (mem dst i)) are at most
+   3 * (w_src_rl w - w_src_rl w') + 24 * (pointer slots of the top-level object) + its own
+   padded size: every object copied below the top level was charged its read size by readPtr
+   (a zero-sized list element one word), its copy takes that size padded to a word (< +8) plus
+   at most one 16-byte landing pad, and the number of pointers written is bounded by the slots
+   paid for by the parent (LimitProofs.slots_le_readSize).
+   Proved instead: the destination only grows ([grows]), the source budget never increases
+   and stays >= 0 ([wgood]), and with C02_traversal the consumed budget is at most T.
+   Missing: a byte-count ghost in the [wgood] invariant and the per-object arithmetic. *)
